@@ -706,7 +706,10 @@ class ExcelModel:
 
 
 def _check_range_all_cycles(nodes, active_nodes, j):
-    if isinstance(nodes[j]['function'], RangesAssembler):
+    func = nodes[j]['function']
+    # The inverse link of a range (range -> cells) is not part of any cycle.
+    if isinstance(func, RangesAssembler) and \
+            not isinstance(func, InvRangesAssembler):
         return active_nodes.intersection(nodes[j]['inputs'])
     return False
 
